@@ -51,6 +51,16 @@ def build(order, y, p, r):
     raise ValueError(order)
 
 
+def _second(a):
+    """the angles of element 1 of a two-valued object (returned as 3xN or Nx3)"""
+    a = np.asarray(a, dtype=float)
+    if a.shape == (3, 2):
+        return a[:, 1]
+    if a.shape == (2, 3):
+        return a[1]
+    raise ValueError("shape %s for a two-valued object" % (a.shape,))
+
+
 def rpy_routes(R, order, unit):
     import spatialmath.base as b
     from spatialmath import SO3, SE3, UnitQuaternion
@@ -59,7 +69,10 @@ def rpy_routes(R, order, unit):
     kw = {"unit": unit, "order": order}
     return {"base.tr2rpy(R)": lambda: b.tr2rpy(R, **kw), "base.tr2rpy(T)": lambda: b.tr2rpy(T, **kw),
             "SO3.rpy": lambda: SO3(R, check=False).rpy(**kw), "SE3.rpy": lambda: SE3(T, check=False).rpy(**kw),
-            "UnitQuaternion.rpy": lambda: UnitQuaternion(SO3(R, check=False)).rpy(**kw)}
+            "UnitQuaternion.rpy": lambda: UnitQuaternion(SO3(R, check=False)).rpy(**kw),
+            "SO3.rpy[2-valued]": lambda: _second(SO3([gamma.rotx(0.3), R], check=False).rpy(**kw)),
+            "SE3.rpy[2-valued]": lambda: _second(SE3([b.transl(1, 2, 3), T], check=False).rpy(**kw)),
+            "UnitQuaternion.rpy[2-valued]": lambda: _second(UnitQuaternion([b.r2q(gamma.rotx(0.3)), UnitQuaternion(SO3(R, check=False)).vec]).rpy(**kw))}
 
 
 def eul_routes(R, flip, unit):
@@ -70,7 +83,9 @@ def eul_routes(R, flip, unit):
     kw = {"unit": unit, "flip": flip}
     return {"base.tr2eul(R)": lambda: b.tr2eul(R, **kw), "base.tr2eul(T)": lambda: b.tr2eul(T, **kw),
             "SO3.eul": lambda: SO3(R, check=False).eul(**kw), "SE3.eul": lambda: SE3(T, check=False).eul(**kw),
-            "UnitQuaternion.eul": lambda: UnitQuaternion(SO3(R, check=False)).eul(unit=unit)}
+            "UnitQuaternion.eul": lambda: UnitQuaternion(SO3(R, check=False)).eul(unit=unit),
+            "SO3.eul[2-valued]": lambda: _second(SO3([gamma.rotx(0.3), R], check=False).eul(**kw)),
+            "SE3.eul[2-valued]": lambda: _second(SE3([b.transl(1, 2, 3), T], check=False).eul(**kw))}
 
 
 def judge_rpy(j, R, order, feat, detail):
